@@ -203,9 +203,13 @@ def run(chk):
                 W = base
             elif name == "knn":      # dyadic grid: the Coq model evaluates these exactly
                 sbits = int(rng.integers(10, 21))
-                scale = 2 ** sbits
-                Wi = rng.integers(-4 * scale, 4 * scale, (N, kx + ky + kz))
+                grid = 2 ** sbits
+                Wi = rng.integers(-4 * grid, 4 * grid, (N, kx + ky + kz))
                 Wi[:, kx:kx + ky] = Wi[:, kx:kx + ky] // 3 + Wi[:, :1]
+                scale = grid
+                if rng.random() < 0.3:        # tiny amplitudes (1e-6 .. 1e-12): an unordered sample at any physical scale
+                    scale = grid * 2 ** int(rng.integers(20, 41))
+                    chk.count("knn.tiny_amplitude")
                 W = Wi / scale
             else:
                 d = kx + ky + kz
@@ -281,7 +285,10 @@ def run(chk):
                                   f"re-ordering the rows of the same argument arrays in place", dict(desc, transform="row_perm_in_place",
                                                                                                    row_permutation=perm.tolist(), transformed_value=v_ip),
                                   {"site": f"{name}/{'Z present' if cond else 'Z absent'}", "transform": "row_perm"})
-            if not counts and name in ("knn", "geometric_knn", "kde", "gaussian") and rng.random() < 0.25:
+            tiny = (name == "knn" and scale is not None and scale > 2 ** 22)
+            if not counts and not tiny and name in ("knn", "geometric_knn", "kde", "gaussian") and rng.random() < 0.25:
+                # (not for tiny-amplitude samples: integer ranks of size N beside coordinates of size 1e-9 make the joint distances tie
+                # in floating point -- rank differences swallow the other coordinates -- and tied samples are outside the property)
                 # mixed storage types: X as tie-free integer ranks or float32, Y / Z float64 -- the roles of X and Y must still be exchangeable
                 kind_ = str(rng.choice(["int_ranks", "float32"]))
                 Xm = (np.argsort(np.argsort(X, axis=0), axis=0).astype(np.int64) if kind_ == "int_ranks" else X.astype(np.float32))
